@@ -165,7 +165,8 @@ func (c *c07Case) Exec() {
 	c.Fatal, c.Files, c.Replayed, c.ReplErr, c.Images = "", nil, nil, "", nil
 	dir := tmpDir("c07-")
 	defer os.RemoveAll(dir)
-	wd := filepath.Join(dir, "wal")
+	// the directory name is configuration too: pattern metacharacters must be taken literally
+	wd := filepath.Join(dir, []string{"wal", "wal[shard-1]", "w?l*", "wal"}[len(c.Ops)%4])
 	must(os.MkdirAll(wd, 0755))
 	ops := append([]walOp{}, c.Ops...)
 	if err := runWalOps(c.Cfg, ops, wd, nil); err != nil {
